@@ -181,6 +181,9 @@ def apply_rules(text, rules, what):
             text, n = rule(text)
             if n:
                 fired.append([rule.__name__, n])
+            elif getattr(rule, 'must_fire', False):
+                # a structural rewrite the unit's contract depends on (e.g. "one turn of this for loop"): if the shape is gone the unit no longer means what it says
+                raise Undecided('structural rule %s did not apply in %s' % (rule.__name__, what))
             continue
         rx, rep, count = rule
         text, n = re.subn(rx, rep, text, flags=re.S)
